@@ -7,11 +7,11 @@ namespace N2V.C05
 open N2V N2V.Sched
 
 /-- `Work::run` returns success only if no command failed and nothing is left pending. -/
-theorem run_success_means_clean (g : Graph) (par : Nat) (c : Choices) (fuel : Nat) (s : S)
+theorem run_success_means_clean {E : Type} (g : Graph) (par : Nat) (c : Choices E) (fuel : Nat) (s : S) (e : E)
     (perms : List (List Nat)) (fin : List (Nat × Term))
-    (h : (runLoop g par c fuel s perms fin).result = .ok true) :
-    (runLoop g par c fuel s perms fin).s.tasksFailed = 0 ∧ (runLoop g par c fuel s perms fin).s.pending ≤ 0 :=
-  runLoop_ok_true g par c fuel s perms fin h
+    (h : (runLoop g par c fuel s e perms fin).result = .ok true) :
+    (runLoop g par c fuel s e perms fin).s.tasksFailed = 0 ∧ (runLoop g par c fuel s e perms fin).s.pending ≤ 0 :=
+  runLoop_ok_true g par c fuel s e perms fin h
 
 /-- With the invariant, "nothing pending" means every build is Unknown (not wanted), Done or
     Failed: success is reported only when every wanted step was settled. -/
